@@ -514,3 +514,99 @@ Definition should_migrate_defs : option (list string) :=
 Definition migration_guards_ok : bool :=
   (mcalls_eqb migration_calls expected_migration_calls
    && match should_migrate_defs with Some rhs => list_eqb rhs expected_should_migrate | None => false end)%bool.
+
+(* ================================================================ the WRITE SET of a command (specification) *)
+(* What the property statement lets a command touch, as a function of the command, its flags, the budget it
+   designates and the budget's content BEFORE the command — independent of the staged effect semantics above:
+     ws_report  files that may be created or overwritten (the report files in the output location),
+     ws_create  files that may be created when missing (starter files; merchants.rules / the backup in a migration),
+     ws_append  files that may only grow by a suffix (settings.yaml),
+     ws_rename  (source, target) pairs that may be renamed (the legacy CSV to its backup name),
+     ws_mkdir   directories that may be created. *)
+Record wset := { ws_report : list path; ws_create : list path; ws_append : list path;
+                 ws_rename : list (path * path); ws_mkdir : list path }.
+Definition ws_empty : wset := {| ws_report := []; ws_create := []; ws_append := []; ws_rename := []; ws_mkdir := [] |}.
+Definition ws_union (a b : wset) : wset :=
+  {| ws_report := app (ws_report a) (ws_report b); ws_create := app (ws_create a) (ws_create b);
+     ws_append := app (ws_append a) (ws_append b); ws_rename := app (ws_rename a) (ws_rename b);
+     ws_mkdir := app (ws_mkdir a) (ws_mkdir b) |}.
+
+(* a CSV -> .rules migration of the budget with prefix [root] *)
+Definition ws_migration (root : string) : wset :=
+  {| ws_report := []; ws_create := [root ++ P_RULES; root ++ P_BAK]; ws_append := [root ++ P_SETTINGS];
+     ws_rename := [(root ++ P_CSV, root ++ P_BAK)]; ws_mkdir := [] |}.
+
+Definition write_set (o : oracle) (c : cmd) (st : state) : wset :=
+  match c with
+  | Up cfg m emb f out =>
+      match up_context o cfg st with
+      | None => ws_empty                         (* no budget designated / settings unusable: nothing at all *)
+      | Some (root, s) =>
+          ws_union
+            (if is_html f
+             then {| ws_report := report_files root s emb out; ws_create := []; ws_append := []; ws_rename := [];
+                     ws_mkdir := match out with None => [root ++ sf_output_dir s] | Some _ => [] end |}
+             else ws_empty)
+            (if (m && csv_format st root s)%bool then ws_migration root else ws_empty)
+      end
+  | Init t =>
+      let rd := init_rootdir t st in
+      let root := prefix_of rd in
+      ws_union
+        (if (fexists st (root ++ P_CSV) && negb (fexists st (root ++ P_RULES)))%bool then ws_migration root else ws_empty)
+        {| ws_report := [];
+           ws_create := filter (fun p => negb (fexists st p))
+                               [root ++ P_SETTINGS; root ++ P_RULES; root ++ P_VIEWS; root ++ P_GIT];
+           ws_append := [root ++ P_SETTINGS]; ws_rename := []; ws_mkdir := init_dirs rd |}
+  | _ => ws_empty                                (* explain discover diag inspect workflow reference update *)
+  end.
+
+Definition pair_mem (a b : path) (l : list (path * path)) : bool :=
+  existsb (fun e => (String.eqb a (fst e) && String.eqb b (snd e))%bool) l.
+(* is this (kind, path, path) — an effect of the model or a traced syscall — inside the write set? *)
+Definition op_within (w : wset) (k : nat) (p q : path) : bool :=
+  match k with
+  | 0 => (mem p (ws_report w) || mem p (ws_create w))%bool     (* create / truncate *)
+  | 1 => mem p (ws_append w)                                    (* append *)
+  | 2 => pair_mem p q (ws_rename w)                             (* rename *)
+  | 3 => mem p (ws_mkdir w)                                     (* mkdir *)
+  | _ => false                                                  (* unlink, truncate, chmod, utime, link ...: never *)
+  end.
+Definition effect_within (w : wset) (e : effect) : bool :=
+  match e with
+  | EWrite _ p _ => op_within w 0 p ""
+  | EAppend _ p _ => op_within w 1 p ""
+  | ERename _ a b => op_within w 2 a b
+  | EMkdir _ d => op_within w 3 d ""
+  end.
+
+(* ================================================================ which budget a command designates *)
+(* os.path.abspath on path components: the harness only splits the typed argument on "/"; dropping "" and ".",
+   resolving ".." and anchoring at the working directory are done here.  [base] = the components of the budget
+   directory (absolute), [cwd] = those of the working directory. *)
+Definition step_comp (stk : list string) (c : string) : list string :=
+  if (String.eqb c "" || String.eqb c ".")%bool then stk
+  else if String.eqb c ".." then tl stk else c :: stk.
+Definition normalize_from (stk : list string) (cs : list string) : list string := fold_left step_comp cs stk.
+Definition resolve (cwd : list string) (absolute : bool) (arg : list string) : list string :=
+  rev (normalize_from (if absolute then [] else rev cwd) arg).
+
+Fixpoint strip_prefix (pre l : list string) : option (list string) :=
+  match pre, l with
+  | [], _ => Some l
+  | x :: r, y :: s => if String.eqb x y then strip_prefix r s else None
+  | _ :: _, [] => None
+  end.
+Definition join_prefix (cs : list string) : string := fold_right (fun c acc => c ++ "/" ++ acc) "" cs.
+
+(* the prefix (relative to the budget directory) of the budget whose config directory the argument names:
+   Some (Some r): the config directory is  <budget dir>/r/config ;  Some None: it is not a `config` folder inside
+   the budget directory (outside the modelled fragment) *)
+Definition designate (base cwd : list string) (absolute : bool) (arg : list string) : option string :=
+  match strip_prefix base (resolve cwd absolute arg) with
+  | Some rel => match rev rel with
+                | c :: rr => if String.eqb c "config" then Some (join_prefix (rev rr)) else None
+                | [] => None
+                end
+  | None => None
+  end.
